@@ -6,7 +6,8 @@ value (prefix tokens):   N None, T/F, I<int>, S<text>, M the constant MISSING, M
   follow), D<k> dict (k key/value pairs), A<k> State instance with k attributes (k = 1..3):
   a: Any | Missing, b: Sequence[Any] | Missing (a tuple or MISSING), c: int | Missing.
 observation: `<result tree> | is= not= when= bool= eqL= eqR= | attr=`; in the tree an instance of Missing
-  prints `M` when it `is MISSING`, `m` otherwise; eqL is `MISSING == r`, eqR is `r == MISSING`;
+  prints `M` when it `is MISSING`, `m` otherwise; eqL is `MISSING == r`, eqR is `r == MISSING`; valM / valSM = a State
+  attribute annotated `Missing` / `str | Missing` accepts r (1 = accepted and stored as it is, 0 = construction raises);
   attr = outcome of get/set/del of an attribute when r is an instance of Missing, followed by
   mod=<assignment of __class__ (to a class of the same empty layout), __dict__, __slots__, __doc__, _instance, __bool__ and
   deletion of __class__, __doc__, __slots__: R = rejected with AttributeError/TypeError> intact=<the object is still the falsy
@@ -49,6 +50,14 @@ from typing import Any  # noqa: E402
 
 import haiway  # noqa: E402
 from haiway import MISSING, Missing, State  # noqa: E402
+
+
+class StateM(State):
+    v: Missing                     # only the constant conforms
+
+
+class StateSM(State):
+    v: str | Missing = MISSING     # a str or the constant
 
 
 class StateA1(State):
@@ -441,8 +450,15 @@ def observe(r) -> str:
         attr = ",".join(probes) + " " + probe_special(r)
     else:
         attr = "-"
+    def accepted(cls):
+        try:
+            inst = cls(v=r)
+        except Exception:  # noqa: BLE001
+            return "0"
+        return "1" if inst.v is r else "x"     # accepted: stored as it is
     return (f"{observe_tree(r)} | is={bit(is_missing(r))} not={bit(not_missing(r))} when={when} bool={bit(bool(r))} "
-            f"eqL={bit(haiway.MISSING == r)} eqR={bit(r == haiway.MISSING)} | attr={attr}")
+            f"eqL={bit(haiway.MISSING == r)} eqR={bit(r == haiway.MISSING)} valM={accepted(StateM)} valSM={accepted(StateSM)} "
+            f"| attr={attr}")
 
 
 def run_real(case: str) -> str:
@@ -549,7 +565,7 @@ def monitor(case: str, out: str) -> list[str]:
     try:
         p = dict(t.split("=", 1) for t in preds.split())
         p["attr"] = attr.split("=", 1)[1]
-        for k in ("is", "not", "when", "bool", "eqL", "eqR"):
+        for k in ("is", "not", "when", "bool", "eqL", "eqR", "valM", "valSM"):
             p[k]
     except Exception:  # noqa: BLE001
         return ["missing.no-observation"]
@@ -572,6 +588,8 @@ def monitor(case: str, out: str) -> list[str]:
             fails.append("missing.truthy")
         if p["eqL"] != "1" or p["eqR"] != "1":
             fails.append("missing.not-equal-to-itself")
+        if p["valM"] != "1" or p["valSM"] != "1":
+            fails.append("missing.validator-rejects-the-constant")
         af = p["attr"].split()
         a = af[0].split(",") if af else []
         for name, res in zip(("get", "set", "del"), a + ["?"] * 3):
@@ -597,6 +615,9 @@ def monitor(case: str, out: str) -> list[str]:
         if extra.get("intact") != "1":
             fails.append("missing.modified")
     elif top != "m":
+        # the validator of a `Missing`-typed attribute agrees with identity too: no look-alike is taken for the constant
+        if p["valM"] != "0" or (p["valSM"] != "0" and not top.startswith("S")):
+            fails.append("missing.validator-accepts-lookalike")
         if p["is"] != "0":
             fails.append("missing.predicate.is_missing")
         if p["not"] != "1":
